@@ -139,6 +139,37 @@ def run(ctx: core.Ctx):
                     i = int(np.argmax(bad))
                     ctx.fail("spi accessor", dict(x=x.tolist(), stamps_at_hour=hour, calibration_begin=str(begin), calibration_end=str(end), window=[cs, ce], cell=i),
                              int(got[i]), float(ref[i]), note="gamma fit on exactly the steps with begin <= t <= end (a date string is 00:00 of that day)")
+        # grouped accessor against the definition: every group is fitted on ITS OWN steps inside the window (a window that does not start
+        # at the beginning of a cycle cuts the groups at different positions)
+        for k in range(ctx.budget(6, 40)):
+            ng = rng.choice([2, 3, 4])
+            n = ng * rng.choice([8, 10, 12]) + rng.choice([0, 1, 2])
+            times = pd.date_range("2000-01-01", periods=n, freq="10D")
+            x = np.clip(np.round(spi.rain_series(rng, n, "float64") + 1), 1, 30000).astype("int16")
+            gids = [(i + rng.choice([0])) % ng for i in range(n)]
+            bi = rng.randrange(1, ng + 2)
+            ei = rng.randrange(n - ng - 2, n - 1)
+            da = xr.DataArray(x.reshape(n, 1, 1), dims=("time", "y", "x"), coords={"time": times}, attrs={"nodata": -9999})
+            try:
+                got = np.asarray(da.hdc.algo.spi(groups=gids, calibration_begin=times[bi], calibration_end=times[ei]).transpose("time", "y", "x")).reshape(-1).astype(np.int64)
+            except Exception as e:  # noqa: BLE001
+                ctx.fail("spi accessor (groups)", dict(x=x.tolist(), groups=gids, begin=str(times[bi]), end=str(times[ei])), repr(e)[:160], "no exception")
+                continue
+            ctx.case(("acc-grp", x.tobytes(), ng, bi, ei), sample=dict(accessor="spi(groups)", groups=ng, begin=bi, end=ei))
+            ctx.count("accessor, grouped windows")
+            for g in range(ng):
+                pos = [i for i in range(n) if gids[i] == g]
+                inside = [j for j, i in enumerate(pos) if bi <= i <= ei]
+                ref, _ = spi.scipy_spi(x[pos].astype("float64"), -9999.0, inside[0], inside[-1] + 1)
+                if ref is None:
+                    continue
+                judged = ~np.isnan(ref) & (np.abs(ref) <= 7000)
+                bad = judged & (np.abs(got[pos] - ref) > 0.5 + 1e-4 + 1e-7 * np.abs(ref))
+                if bad.any():
+                    j = int(np.argmax(bad))
+                    ctx.fail("spi accessor (groups)", dict(x=x.tolist(), groups=gids, group=g, calibration_begin=str(times[bi]), calibration_end=str(times[ei]), window_of_group=[inside[0], inside[-1] + 1]),
+                             int(got[pos][j]), float(ref[j]), note="per group: gamma fit on the group's own steps inside the calibration window")
+                    break
     finally:
         ctx.notes["oracle_queries"] = dlg.queries
         dlg.close()
